@@ -64,3 +64,11 @@ claim("C09",
       "A-TSA (topology-scaling theorem) is mathematics and not machine-checked; the displacement-tensor contract is the subject of C10; DBSCAN/ASE/numpy contracts assumed; invariances follow from "
       "'result = formula' and are not proved separately.",
       "symbolic execution against callee contracts + z3; exhaustive evaluation of the finite formula domain", "DESIGN.md §3 C09")
+
+claim("C17",
+      "Classifier.classify is executed symbolically from its real source (symbolic structure, all seed/tolerance modes) with get_dimensionality, the periodic search and the centre of mass under contract: "
+      "the class is exactly the one the statement prescribes for each dimensionality value (None, 0 with/without single atom, 1, 2, 3); a Surface/Material2D result carries the region found, "
+      "whose basis covers >= min_coverage of the atoms; the dimensionality is evaluated on a wrapped deep copy and the input is never mutated; Class2DWithCell views: basis and outliers partition the atoms; "
+      "cross_validate_region returns one of the regions produced.",
+      "'returns normally' for arbitrary structures is NOT covered (the periodic search is a float heuristic, L-HEUR); that the dimensionality value is right is C09; region basis in range is the get_region contract (assumed).",
+      "symbolic execution against callee contracts + z3", "DESIGN.md §3 C17")
